@@ -52,6 +52,7 @@ def build(nl, name='top'):
     b = Built()
     c = b.c = Circuit(name)
     cells = nl['style'] == 'cells'
+    placeholder = Node(c, 'zz_placeholder', 'buf') if nl.get('movedff') else None      # node index 0, removed again at the end
     rd = rm.readers(nl)
     npi = nl['pi']
     # nodes ------------------------------------------------------------------------------------
@@ -162,11 +163,17 @@ def build(nl, name='top'):
             n_op = rm.arity(g['f'], g['i'])
             for j in range(n_op):
                 if j >= len(g['i']) or g['i'][j] is None:
-                    if nl['flt'] == 2:
-                        shared = shared or Node(c, 'floatnet')
+                    fresh = None
+                    if nl['flt'] in (2, 4):
+                        if shared is None:
+                            shared = fresh = Node(c, 'floatnet')
                         ff = shared
                     else:
-                        ff = Node(c, f'floatnet{k}_{j}')
+                        ff = fresh = Node(c, f'floatnet{k}_{j}')
+                    if fresh is not None and nl['flt'] >= 3:       # the net had a driver once: the line was removed again, the fork keeps an empty pin 0
+                        tmp = Node(c, f'{fresh.name}_olddriver', 'buf')
+                        Line(c, tmp, fresh).remove()
+                        tmp.remove()
                     b.flt.append(Line(c, ff, (b.g[k], j)))
                     b.line_src[b.flt[-1].index] = 'zero'         # carries the constant 0
     # ports ------------------------------------------------------------------------------------
@@ -185,6 +192,11 @@ def build(nl, name='top'):
             c.io_nodes.append(n)
     if any(n is None for n in c.io_nodes):
         raise HarnessError('builder: unresolved output port')
+    if placeholder is not None:
+        # edit history: a spare flip-flop (no data pin, no reader: its next state is 0, nothing depends on it) is created last; removing the
+        # placeholder moves it to node index 0, in front of every other state element - s_nodes follows the node order
+        Node(c, 'zz_spare_ff', 'DFF')
+        placeholder.remove()
     return b
 
 
